@@ -151,7 +151,13 @@ Init == /\ ty \in LeavesOf(Family)
         /\ depth = 0
         /\ last = "leaf"
 
+\* TypeScript admits string, number, template literal patterns and unions of these as index signature key types - not
+\* literal types, objects, ...
+RECURSIVE IndexKeyOK(_)
+IndexKeyOK(t) == \/ t.t = "tpl" \/ (t.t = "prim" /\ t.p \in {"string", "number"})
+                 \/ (t.t = "union" /\ \A i \in DOMAIN t.ms : IndexKeyOK(t.ms[i]))
 Wrap(a) == /\ a \in Unary \ {"alias", "rec", "recTuple", "iface", "shared"}
+           /\ (a \in {"indexKey", "indexKeyAny"} => IndexKeyOK(ty))
            /\ ty' = ApplyUnary(a, ty)
            /\ UNCHANGED env
 
